@@ -259,7 +259,7 @@ def judge(chk: Check, alphabet: T.List[T.Any], cases: T.List[T.Dict[str, T.Any]]
             chk.violation(f"FormatterRaised@{c['exc'][:80]}@{c['text'][:60]!r}", {'text': c['text'], 'cfg': c['cfg'], 'exception': c['exc']})
     cases = [c for c in cases if not c.get('exc')]
     by_id = {c['id']: c for c in cases}
-    for part_no, part in enumerate(common.chunks(cases, 40000)):
+    for part_no, part in enumerate(common.size_chunks(cases, 40000, lambda c: {k: c[k] for k in KEEP})):
         with scratch('c16-') as d:
             tf = d / 'cases.json'
             tf.write_text(json.dumps({'alphabet': alphabet, 'cases': [{k: c[k] for k in KEEP} for c in part]}))
